@@ -169,6 +169,7 @@ def _trimnodal_case(seed, quick):
     mr = (rng.choice([0, 1, 1, 1, 2, 2]) if nd < 3 else rng.choice([0, 1, 1])) if mkind == 'rect' else rng.choice([1, 1, 2])
     step = 2**mr
     fshape = [m * step + 1 for m in shape]
+    nregen = 0
     while True:
         G, gdesc = nodal_field(rng, fshape, per, step)
         # the binning of cut positions (2^ndivisions bins per leaf edge) must not round a cut onto a vertex: that is the domain of the
@@ -176,11 +177,14 @@ def _trimnodal_case(seed, quick):
         xi = min_crossing(G)
         ndivs = [nv for nv in (8, 8, 8, 6, 4, 3, 2, 1) if xi * 2**nv >= 1]
         if ndivs: break
+        nregen += 1
     ndiv = rng.choice(ndivs)
+    steered = ['trimnodal-steered-away-from-coarse-ndivisions:field-regenerated'] * nregen
+    if min(ndivs) > 1: steered.append('trimnodal-steered-away-from-coarse-ndivisions:ndivisions<%d-excluded' % min(ndivs))
     desc = dict(stream='trimnodal', seed=seed, mesh=mkind, shape=shape, periodic=per, maxrefine=mr, ndivisions=ndiv, field=gdesc, nodal=G.astype(int).tolist())
     rec['desc'] = desc
     rec['key'] = (mkind, tuple(shape), tuple(per), mr, ndiv, G.astype(int).tobytes())
-    rec['counts'] += ['trimnodal:%s:%dd%s' % (mkind, nd, ':periodic' if per else ''), 'trimnodal-field:' + gdesc.split(' ')[0], 'trimnodal-maxrefine:%d' % mr]
+    rec['counts'] += steered + ['trimnodal:%s:%dd%s' % (mkind, nd, ':periodic' if per else ''), 'trimnodal-field:' + gdesc.split(' ')[0], 'trimnodal-maxrefine:%d' % mr]
     try:
         if mkind == 'rect':
             topo, x = mesh.rectilinear(shape, periodic=per)
